@@ -265,7 +265,7 @@ Lemma sim_switch T W st s L : sim T W st s -> nodupb L = true ->
   sim T W (switch_layout st L) s /\ (L = [] \/ cur (switch_layout st L) = L) /\
   frames (switch_layout st L) = frames st.
 Proof.
-  intros S NL. unfold switch_layout, CALLS_COMPARE_WITH_LOADED_LAYOUT. destruct L as [|a r] eqn:EL.
+  intros S NL. unfold switch_layout, CALLS_COMPARE_WITH_LOADED_LAYOUT, LAYOUT_SWITCHES_SYNC_THE_LOADED_LAYOUT. destruct L as [|a r] eqn:EL.
   { split; [exact S|]. split; [now left|reflexivity]. }
   rewrite <- EL in *. destruct (layout_eqb L (cur st)) eqn:E.
   { apply layout_eqb_eq in E. split; [exact S|]. split; [right; now rewrite E|reflexivity]. }
